@@ -83,6 +83,9 @@ pub fn set_describe(d: Option<Describe>) {
     *DESCRIBE.lock().unwrap() = d;
 }
 pub static DONE: AtomicBool = AtomicBool::new(false);
+/// progress inside long items (state-graph exploration, schedule search): bumped by the engines so
+/// that a long but progressing item is never taken for a hang
+pub static TICK: AtomicU64 = AtomicU64::new(0);
 
 /// Run `f(index, local)` for every index in 0..total on THREADS threads (dynamic chunks).
 pub fn par_sweep<F>(total: u64, chunk: u64, f: F) -> Totals
@@ -329,14 +332,15 @@ pub fn finish(rep: Report, tot: Totals) -> i32 {
 /// (machinery failure), naming the scenario every worker was in.
 pub fn start_watchdog(secs: u64) {
     std::thread::spawn(move || {
-        let mut last: Vec<u64> = vec![0; THREADS];
+        let mut last: Vec<u64> = vec![0; THREADS + 1];
         let mut stale = 0u64;
         loop {
             std::thread::sleep(std::time::Duration::from_secs(1));
             if DONE.load(Ordering::Relaxed) {
                 return;
             }
-            let now: Vec<u64> = HEARTBEAT.iter().map(|h| h.load(Ordering::Relaxed)).collect();
+            let mut now: Vec<u64> = HEARTBEAT.iter().map(|h| h.load(Ordering::Relaxed)).collect();
+            now.push(TICK.load(Ordering::Relaxed));
             // only calls into the subject can hang: outside of sweeps (scenario construction,
             // evidence writing) no item is in flight and the stall counter does not run
             let in_flight = CUR_ITEM.iter().any(|c| c.load(Ordering::Relaxed) > 0);
